@@ -45,6 +45,12 @@ pub struct OdsChoices {
     pub encrypted_entries: usize,
     /// manifest lists the unencrypted regular files (incl. a thumbnail) before the encrypted ones
     pub plain_entries_first: bool,
+    /// which entries carry encryption data: 0 = the first `encrypted_entries` (content.xml first),
+    /// 1 = only entries other than content.xml, 2 = ODF 1.4 whole-package encryption (a single
+    /// encrypted `encrypted-package` entry, no content.xml in the archive)
+    pub encrypt_mode: u8,
+    /// a <table:dde-links> block (with its nameless cached-value table) after the sheets
+    pub dde_links: bool,
     pub text_mode: xml::TextMode,
 }
 
@@ -60,6 +66,8 @@ impl Default for OdsChoices {
             deflate: true,
             encrypted_entries: 0,
             plain_entries_first: false,
+            encrypt_mode: 0,
+            dde_links: false,
             text_mode: xml::TextMode::Entities,
         }
     }
@@ -77,15 +85,21 @@ impl OdsChoices {
             deflate: rng.bool(),
             encrypted_entries: 0,
             plain_entries_first: false,
+            encrypt_mode: 0,
+            dde_links: rng.chance(1, 3),
             text_mode: *rng.pick(&xml::TEXT_MODES),
         }
     }
     pub fn features(&self) -> Vec<String> {
-        vec![
+        let mut f = vec![
             format!("cuts:{:?}", self.cuts),
             format!("trailing:{:?}", self.trailing),
             if self.text_content { "text:p".into() } else { "string-value".into() },
-        ]
+        ];
+        if self.dde_links {
+            f.push("ods:dde_links".into());
+        }
+        f
     }
 }
 
@@ -172,7 +186,20 @@ fn cell_xml(c: Option<&MCell>, repeat: u32, ch: &OdsChoices, rng: &mut Rng, cove
             let plain_spaces = !s.starts_with(' ') && !s.ends_with(' ') && !s.contains("  ");
             if !ch.text_content && single_par && plain_spaces {
                 *counts.entry("str:string-value".into()).or_insert(0) += 1;
-                (put(ty("string"), format!(" office:string-value=\"{}\"", xml::attr(s)), ch), format!("<text:p>{}</text:p>", xml::text(s, xml::TextMode::Entities, rng)))
+                // the attribute is the value; the paragraph is only its rendering, which may be
+                // the same text, a formatted variant of it, or absent
+                let body = match rng.below(3) {
+                    0 => format!("<text:p>{}</text:p>", xml::text(s, xml::TextMode::Entities, rng)),
+                    1 => {
+                        *counts.entry("str:string-value:rendering_differs".into()).or_insert(0) += 1;
+                        format!("<text:p>shown: {} !</text:p>", xml::text(s, xml::TextMode::Entities, rng))
+                    }
+                    _ => {
+                        *counts.entry("str:string-value:no_rendering".into()).or_insert(0) += 1;
+                        String::new()
+                    }
+                };
+                (put(ty("string"), format!(" office:string-value=\"{}\"", xml::attr(s)), ch), body)
             } else {
                 *counts.entry("str:text:p".into()).or_insert(0) += 1;
                 let mut body = String::new();
@@ -378,6 +405,9 @@ pub fn encode(book: &MBook, ch: &OdsChoices, rng: &mut Rng) -> Encoded {
         }
         x.push_str("</table:named-expressions>");
     }
+    if ch.dde_links {
+        x.push_str("<table:dde-links><table:dde-link><office:dde-source office:dde-application=\"soffice\" office:dde-topic=\"other.ods\" office:dde-item=\"Sheet1.A1\" office:automatic-update=\"true\"/><table:table><table:table-column table:number-columns-repeated=\"2\"/><table:table-row><table:table-cell office:value-type=\"float\" office:value=\"123456\"/><table:table-cell office:value-type=\"string\" office:string-value=\"dde cache\"/></table:table-row></table:table></table:dde-link></table:dde-links>");
+    }
     x.push_str("</office:spreadsheet></office:body></office:document-content>");
     // manifest
     let mut m = String::from("<?xml version=\"1.0\" encoding=\"UTF-8\"?>\n<manifest:manifest xmlns:manifest=\"urn:oasis:names:tc:opendocument:xmlns:manifest:1.0\" manifest:version=\"1.2\">");
@@ -386,11 +416,24 @@ pub fn encode(book: &MBook, ch: &OdsChoices, rng: &mut Rng) -> Encoded {
     let entries = ["content.xml", "styles.xml", "meta.xml", "settings.xml"];
     let mut lines: Vec<(bool, String)> = vec![];
     for (i, e) in entries.iter().enumerate() {
-        if i < ch.encrypted_entries {
+        let enc_here = match ch.encrypt_mode {
+            1 => i >= 1 && i <= ch.encrypted_entries.min(3),
+            2 => false,
+            _ => i < ch.encrypted_entries,
+        };
+        if ch.encrypt_mode == 2 && ch.encrypted_entries > 0 {
+            continue;
+        }
+        if enc_here {
             lines.push((true, format!("<manifest:file-entry manifest:full-path=\"{}\" manifest:media-type=\"text/xml\" manifest:size=\"{}\"><manifest:encryption-data manifest:checksum-type=\"urn:oasis:names:tc:opendocument:xmlns:manifest:1.0#sha256-1k\" manifest:checksum=\"q1w2e3==\"><manifest:algorithm manifest:algorithm-name=\"http://www.w3.org/2001/04/xmlenc#aes256-cbc\" manifest:initialisation-vector=\"AAAA\"/><manifest:key-derivation manifest:key-derivation-name=\"PBKDF2\" manifest:key-size=\"32\" manifest:iteration-count=\"100000\" manifest:salt=\"BBBB\"/><manifest:start-key-generation manifest:start-key-generation-name=\"http://www.w3.org/2000/09/xmldsig#sha256\" manifest:key-size=\"32\"/></manifest:encryption-data></manifest:file-entry>", e, content.len())));
         } else {
             lines.push((false, format!("<manifest:file-entry manifest:full-path=\"{}\" manifest:media-type=\"text/xml\"/>", e)));
         }
+    }
+    let enc_data = "<manifest:encryption-data manifest:checksum-type=\"urn:oasis:names:tc:opendocument:xmlns:manifest:1.0#sha256-1k\" manifest:checksum=\"q1w2e3==\"><manifest:algorithm manifest:algorithm-name=\"http://www.w3.org/2001/04/xmlenc#aes256-cbc\" manifest:initialisation-vector=\"AAAA\"/><manifest:key-derivation manifest:key-derivation-name=\"PBKDF2\" manifest:key-size=\"32\" manifest:iteration-count=\"100000\" manifest:salt=\"BBBB\"/></manifest:encryption-data>";
+    let wholesale = ch.encrypt_mode == 2 && ch.encrypted_entries > 0;
+    if wholesale {
+        lines.push((true, format!("<manifest:file-entry manifest:full-path=\"encrypted-package\" manifest:media-type=\"\" manifest:size=\"{}\">{}</manifest:file-entry>", content.len(), enc_data)));
     }
     if ch.plain_entries_first && ch.encrypted_entries > 0 {
         lines.push((false, "<manifest:file-entry manifest:full-path=\"Thumbnails/thumbnail.png\" manifest:media-type=\"image/png\"/>".to_string()));
@@ -400,13 +443,18 @@ pub fn encode(book: &MBook, ch: &OdsChoices, rng: &mut Rng) -> Encoded {
         m.push_str(l);
     }
     m.push_str("</manifest:manifest>");
-    if ch.encrypted_entries > 0 {
+    if ch.encrypted_entries > 0 && ch.encrypt_mode != 1 {
         // ciphertext instead of XML
         for b in content.iter_mut() {
             *b = rng.next_u32() as u8;
         }
     }
     let mut parts = vec![Part { name: "mimetype".into(), data: MIMETYPE.as_bytes().to_vec(), deflate: false }];
+    if wholesale {
+        parts.push(Part { name: "encrypted-package".into(), data: content, deflate: false });
+        parts.push(Part { name: "META-INF/manifest.xml".into(), data: m.into_bytes(), deflate: ch.deflate });
+        return Encoded { bytes: zipw::build(&parts), counts };
+    }
     parts.push(Part { name: "content.xml".into(), data: content, deflate: ch.deflate });
     parts.push(Part { name: "styles.xml".into(), data: format!("<?xml version=\"1.0\" encoding=\"UTF-8\"?><office:document-styles {} office:version=\"1.2\"/>", NS).into_bytes(), deflate: ch.deflate });
     parts.push(Part { name: "meta.xml".into(), data: format!("<?xml version=\"1.0\" encoding=\"UTF-8\"?><office:document-meta {} office:version=\"1.2\"/>", NS).into_bytes(), deflate: ch.deflate });
